@@ -83,7 +83,10 @@ def extract_links(ff):
         res = make_residue_graph(link, attrs=('order',))
         rnodes = [res.nodes[n]['order'] for n in res.nodes]
         redges = [(res.nodes[a]['order'], res.nodes[b]['order']) for a, b in res.edges]
-        out.append({'atoms': latoms, 'inters': linters, 'edges': [(str(a), str(b)) for a, b in link.edges], 'rnodes': rnodes, 'redges': redges})
+        rlabels = [(res.nodes[a]['order'], res.nodes[b]['order'], str(res.edges[a, b]['linktype'])) for a, b in res.edges
+                   if res.edges[a, b].get('linktype') is not None]
+        out.append({'atoms': latoms, 'inters': linters, 'edges': [(str(a), str(b)) for a, b in link.edges], 'rnodes': rnodes, 'redges': redges,
+                    'rlabels': rlabels})
     return out
 
 
@@ -94,14 +97,16 @@ def coq_link(l):
                              for i in l['inters']) + "]"
     rn = "[" + "; ".join(coq_order(o) for o in l['rnodes']) + "]"
     re_ = "[" + "; ".join(f"({coq_order(a)}, {coq_order(b)})" for a, b in l['redges']) + "]"
-    return f"(Build_link {atoms} {inters} {lit(l['edges'])} {rn} {re_})"
+    rl = "[" + "; ".join(f"({coq_order(a)}, {coq_order(b)}, {lit(s)})" for a, b, s in l.get('rlabels', [])) + "]"
+    return f"(Build_link {atoms} {inters} {lit(l['edges'])} {rn} {re_} {rl})"
 
 
-def coq_meta(residues, edges):
+def coq_meta(residues, edges, elabels=()):
     nodes = "[" + "; ".join(
         f"Build_mnode {lit(k)} {lit(resid)} [" + "; ".join(f"Build_ratom {lit(a)} {lit(n)} {lit(rn)}" for a, n, rn in atoms) + "]"
         for k, resid, atoms in residues) + "]"
-    return f"(Build_meta {nodes} {lit(edges)})"
+    labs = "[" + "; ".join(f"({lit(a)}, {lit(b)}, {lit(s)})" for a, b, s in elabels) + "]"
+    return f"(Build_meta {nodes} {lit(edges)} {labs})"
 
 
 def run_case(ff, g):
@@ -121,7 +126,8 @@ def run_case(ff, g):
             gph = meta.nodes[n]['graph']
             residues.append((int(n), int(meta.nodes[n]['resid']),
                              [(int(a), gph.nodes[a]['atomname'], gph.nodes[a]['resname']) for a in gph.nodes]))
-        edges = [(int(a), int(b)) for a, b in meta.edges]
+        edges = [(int(a), int(b), None if meta.edges[a, b].get('linktype') is None else str(meta.edges[a, b]['linktype']))
+                 for a, b in meta.edges]
         links = extract_links(vff)
         ApplyLinks().run_molecule(meta)
         after = ffgen.snapshot(meta.molecule)
@@ -161,6 +167,8 @@ def judge(ff, g, before, after, residues):
                 if any(p not in ('', '+') for p, _ in others):
                     continue
                 for k in range(g['nres'] - 1):
+                    if l.get('edge_labels') or g.get('elabels', {}).get(str(k)) is not None:
+                        continue    # labelled links / labelled residue edges are judged by spec_table
                     ra, rb = g['resnames'][k], g['resnames'][k + 1]
                     applicable = ra in l['resnames'] and rb in l['resnames'] and \
                         all(any(a['name'] == n for a in by[ra if p == '' else rb]['atoms']) for p, n in set(others))
@@ -185,7 +193,7 @@ def spec_table(before, residues, edges, links):
     from vermouth.processors.do_links import match_order
     resid = {k: r for k, r, _ in residues}
     atoms_of = {k: atoms for k, _, atoms in residues}
-    adj = {frozenset(e) for e in edges}
+    adj = {frozenset((a, b)): lab for a, b, lab in edges}
     table = {}
     for sec, rows in before['inters'].items():
         for r in rows:
@@ -195,12 +203,17 @@ def spec_table(before, residues, edges, links):
             table[(sec, tuple(r['atoms']), ver)] = (tuple(r['params']), tuple(sorted((str(k), str(v)) for k, v in r['meta'].items())))
     for link in links:
         orders = link['rnodes']
-        ledges = {frozenset(e) for e in link['redges']}
+        ledges = {frozenset(e): None for e in link['redges']}
+        for a, b, lab in link.get('rlabels', []):
+            ledges[frozenset((a, b))] = lab
         matches = []
         for nodes in itertools.permutations(list(resid), len(orders)):
             ok = True
             for (o1, n1), (o2, n2) in itertools.combinations(list(zip(orders, nodes)), 2):
-                if (frozenset((o1, o2)) in ledges) != (frozenset((n1, n2)) in adj) or not match_order(o1, resid[n1], o2, resid[n2]):
+                le, me = frozenset((o1, o2)), frozenset((n1, n2))
+                # an edge of the link's residue pattern lies on a residue-graph edge with the same label (none = none)
+                if (le in ledges) != (me in adj) or (le in ledges and ledges[le] != adj[me]) or \
+                        not match_order(o1, resid[n1], o2, resid[n2]):
                     ok = False
                     break
             if ok:
@@ -296,6 +309,14 @@ def run(ctx):
         g = ffgen.gen_resgraph(rng, ff)
         if rng.random() < 0.4:
             g = ffgen.permute_graph(rng, g)
+        if rng.random() < 0.3:
+            # edge labels: labelled and unlabelled links of the same shape side by side, labelled residue edges
+            labelled = [ffgen.label_link(rng, l) for l in ff['links'] if rng.random() < 0.6]
+            ff = dict(ff, links=ff['links'] + [l for l in labelled if l.get('edge_labels')])
+            if rng.random() < 0.5:
+                rng.shuffle(ff['links'])
+            g = ffgen.label_graph(rng, g)
+            ctx.feature('edge_labels')
         cases.append((ff, g))
     exprs, keep = [], []
     for ff, g in cases:
@@ -332,7 +353,8 @@ def run(ctx):
         blocks = "[" + "; ".join(
             f"(({lit(sec)}, {lit(r['atoms'])}, {lit(ver)}), ({lit(r['params'])}, {lit(sorted((str(k), str(v)) for k, v in r['meta'].items()))}))"
             for sec, r, ver in block_rows) + "]"
-        exprs.append(f"show {coq_meta(residues, edges)} {blocks} [{'; '.join(coq_link(l) for l in links)}]")
+        exprs.append(f"show {coq_meta(residues, [(a, b) for a, b, _ in edges], [e for e in edges if e[2] is not None])} {blocks} "
+                     f"[{'; '.join(coq_link(l) for l in links)}]")
         keep.append((ff, g, before, after))
     try:
         res = core.coq_eval_cases(ctx, 'links', PRELUDE, exprs, chunk=40)
